@@ -29,8 +29,8 @@ CLASSES = [
                                                  "_args": "RunArguments", "_options": "RunOptions"}),
     ClassDecl("RunCommand", file=F),
     ClassDecl("RunExperiment", file=F, fields={"_did_retrieve_version": "bool", "_most_relevant_version": "Opt[Version]"}),
-    ClassDecl("RunArguments", file="utils/run_arguments.py"),
-    ClassDecl("RunOptions", file="utils/run_options.py"),
+    ClassDecl("RunArguments", file="utils/run_arguments.py", fields={"_args": "PyValue"}),
+    ClassDecl("RunOptions", file="utils/run_options.py", fields={"_options": "PyValue"}),
     ClassDecl("CompletedProcess", fields={"returncode": "int", "stdout": "str"}),
     ClassDecl("RuntimeError", exception=True, bases=["BaseException"]),
 ]
